@@ -147,6 +147,7 @@ def cases(seed, tier):
                     'zip': prng.random() < 0.25,
                     'subwf': prng.random() < 0.3,
                     'retry': prng.random() < 0.15,
+                    'warm': prng.random() < 0.4,
                     'outs': outs,
                     'max_orders': 6 if tier == 'quick' else 24,
                     'tx_orders': 2 if tier == 'quick' else 3,
@@ -200,6 +201,14 @@ def run_case(case):
                                'seed': prng.randint(0, 10 ** 6)}),
                  'scheduler': case['scheduler'],
                  'uuid_seed': case['uuid_seed']}
+            if case.get('warm') and k == 0:
+                # the same definition ran before in this engine process
+                # with another item count and concurrency
+                c['warm'] = {'start': {'wf': 'wf', 'input': {
+                    'items': list(range(n + 2)),
+                    'items2': ['z%d' % i for i in range(n + 2)],
+                    'c': (case['conc'] or 0) + 2}}, 'outcomes': [],
+                    'hold_async': False}
             mon = WithItems(n, case['conc'], case['retry'])
             rerun_state = {}
 
@@ -210,9 +219,11 @@ def run_case(case):
                 t = [t for t in w.rec.rows['task'].values()
                      if t['name'] == 'w']
                 root = w.root()
-                if not t or t[0]['state'] != 'ERROR' or root is None or \
-                        root['state'] != 'ERROR' or case['retry']:
+                if not t or t[0]['state'] not in ('ERROR', 'CANCELLED') or \
+                        root is None or root['state'] != t[0]['state'] or \
+                        case['retry']:
                     return False
+                rerun_state['from'] = t[0]['state']
                 w.outcome_rules[:] = [{'t': 'w', 'i': i,
                                        'outcome': ['ok', 'it-%d' % i]}
                                       for i in range(n)]
